@@ -1,0 +1,12 @@
+//go:build !verif
+
+// Package verifhook holds the verification taps of bmeg/grip. Without the
+// build tag `verif` every function is empty and is inlined away.
+package verifhook
+
+// Emit reports an event of the traveler protocol (no-op without the tag).
+func Emit(site string, a, b int64) {}
+
+// Point marks a place where a verification run may inject a delay (no-op
+// without the tag).
+func Point(site string) {}
